@@ -132,9 +132,10 @@ def extract(repo):
         dw = "" if name in ("read", "readv") else "!(flags&MSG_DONTWAIT)&&"
         first = "do{if(%sshould_block(%s)){if(!fiber_wait_for_event(%s,FIBER_POLL_IN)){return-1;}}ret=fibershim_%s(" % (dw, fdv, fdv, name)
         cond = "}while(ret<0&&(errno==EWOULDBLOCK||errno==EAGAIN)&&%sshould_block(%s));returnret;" % (dw, fdv)
+        cond2 = cond.replace("(errno==EWOULDBLOCK||errno==EAGAIN)", "fiber_io_would_block()")
         t_first = "while(1){ret=fibershim_%s(" % name
         t_cond = ["&&%sshould_block(%s))){break;}if(!fiber_wait_for_event(%s,FIBER_POLL_IN)){return-1;}}returnret;" % (dw, fdv, fdv)]
-        k = one_of(b, name, waitfirst=[first, cond], tryfirst=[t_first] + t_cond)
+        k = one_of(b, name, waitfirst=[first, cond], waitfirst2=[first, cond2], tryfirst=[t_first] + t_cond)
         tries.append(k == "tryfirst")
     if len(set(tries)) != 1:
         raise ExtractError("read family is not uniform: %s" % tries)
